@@ -38,7 +38,8 @@ REAL = ["torchjd.autojac.backward (set(inputs), ordered key sets, unite/disunite
 STUBS = ["torch.Tensor.__hash__ (S1 seam)", "torch.randperm/randn replayed by the scheduler for PCGrad/Random (S2 seam)"]
 ASSUMPTIONS = [
     "only the layout clause of C08 is decided (column permutation / zero-column invariance as produced by the S1 schedule); A(JQ)=A(J)Q and the row-span clause are not",
-    "tolerance covers re-association of floating-point sums: 1e-10 (float64) / 2e-4 (float32) relative to the scale of J and A(J) for weights@J-type aggregators, 1e-6 (float64 only) for QP/pinv/conic ones",
+    "tolerance for weights@J-type aggregators: 16*(m+n+8)*eps relative to the scale of J and A(J) (coordinate j only involves column j); 1e-6 (float64 only) for QP/pinv/conic ones",
+    "8% of the runs are 'tall clustered' worlds: 26..32 near-identical rows in float32 with Krum/TrimmedMean/Mean (the robust-aggregation setting, where distances are tiny relative to norms)",
     "pinv/eigh/conic/Frank-Wolfe based aggregators only on Jacobians with unambiguous numerical rank; Krum/MGDA near-ties assert nothing",
     "GradDrop is excluded: its draw is per column, so the layout legitimately re-labels the randomness",
 ]
@@ -107,7 +108,50 @@ def mgda_margin(J, max_iters=100, epsilon=0.001):
     return gap
 
 
+def _generate_tall_clustered(rng):
+    """A federation-like Jacobian through backward(): 26..32 output rows that are near-identical (large
+    common component + small noise), float32, several 1-d parameter tensors so that the listing order /
+    schedule permutes whole column blocks. Krum / TrimmedMean / Mean are the aggregators of that setting."""
+    dtype = "float32"
+    g = Gen(rng, dtype)
+    sizes = [rng.randint(1, 4) for _ in range(rng.choice([2, 3, 4]))]
+    real = [g.add_leaf((sz,), True) for sz in sizes]
+    ghosts = [g.add_leaf((rng.randint(1, 3),), True) for _ in range(rng.choice([1, 2]))]
+    g.seal_leaves()
+    (src,) = g._emit("cat", real, {"dim": 0}) if len(real) > 1 else (real[0],)
+    n = sum(sizes)
+    m = rng.randint(26, 32)
+    base = [rng.choice([-1, 1]) * rng.uniform(500, 3000) for _ in range(n)]
+    W = [[float(np.float32(b + rng.gauss(0, 1))) for b in base] for _ in range(m)]
+    (out,) = g._emit("lin", [src], {"W": W, "shape": [m]})
+    spec = g.spec
+    kind = rng.choice(["Krum", "Krum", "Krum", "TrimmedMean", "Mean"])
+    agg = {"kind": kind}
+    if kind == "Krum":
+        agg.update({"f": rng.randint(0, 4), "k": rng.choice([1, 1, 2])})
+    elif kind == "TrimmedMean":
+        agg["b"] = rng.randint(1, 4)
+    inputs = list(real)
+    rng.shuffle(inputs)
+    listing_b = list(inputs)
+    rng.shuffle(listing_b)
+    if listing_b == inputs and len(inputs) > 1:
+        listing_b.reverse()
+    listing_c = list(inputs)
+    for gh in ghosts:
+        listing_c.insert(rng.randint(0, len(listing_c)), gh)
+    draws = {"perms": [], "normals": []}
+    return {
+        "wide_ghost": None, "tall_clustered": True,
+        "spec": spec, "tensors": [out], "agg": agg, "chunk": rng.choice([None, None, 8]),
+        "inputs_a": inputs, "inputs_b": listing_b, "inputs_c": listing_c, "ghosts": ghosts, "draws": draws,
+        "scheds": [gen_sched(rng, spec), gen_sched(rng, spec), gen_sched(rng, spec)],
+    }
+
+
 def generate(rng, tier, index):
+    if rng.random() < 0.08:
+        return _generate_tall_clustered(rng)
     dtype = "float64" if rng.random() < 0.8 else "float32"
     g = Gen(rng, dtype)
     n_leaves = rng.choice([2, 2, 3, 3, 4, 5])
@@ -214,7 +258,7 @@ def execute(scn):
     ambiguous = False
     if kind == "Krum":
         _, _, margin, _ = ref_krum(J, int(scn["agg"]["f"]), int(scn["agg"].get("k", 1)))
-        ambiguous = margin < 1e-6
+        ambiguous = margin < (1e-6 if spec["dtype"] == "float64" else 2e-3)
     if kind == "MGDA":
         ambiguous = mgda_margin(J) < 1e-7
     if ambiguous:
@@ -231,7 +275,11 @@ def execute(scn):
     scaleJ = float(np.abs(J).max()) if J.size else 0.0
     vec_scale = max(float(np.abs(wa.grad_array(n)).max()) for n in scn["inputs_a"])
     if kind in EXACT:
-        rtol = 1e-10 if spec["dtype"] == "float64" else 2e-4
+        # weights @ J: coordinate j only involves column j, so the layout can only change the result through
+        # the kernel's blocking: a few ulps of sum_i |w_i J_ij|
+        rtol = max(1e-12, 16.0 * (m + J.shape[1] + 8) * eps)
+        if scn.get("tall_clustered"):
+            stats["reach.tall_clustered_jacobian"] = 1
     elif kind == "CAGrad":
         rtol = 1e-4
     else:
